@@ -31,16 +31,25 @@ VX == SVar("x", TRUE, L2)
 GX == SExpr(Asg("g", Id("x")))
 Boom == SEval(Bin("+", L1, Lit(NilV)))
 Child(nm) == SDef("c", nm, <<FA>>)
+Child0(nm) == SDef("c", nm, <<>>)
+FC == SExpr(Asg("c", L1))          \* a field whose name is the key of an unnamed child closed later
 BBodies == { <<>>, <<FA>>, <<FA, FB>>, <<GT>>, <<GN>>, <<VX, GX>>, <<Child("")>>, <<Child("n")>>, <<Child(""), Child("")>>,
              <<Child("n"), Child("n")>>, <<Child("n"), Child("m")>>, <<Child(""), Child("n")>>, <<FA, Child("n"), GT>>,
-             <<SDef("c", "", <<SDef("a", "n", <<GN>>)>>)>>, <<Boom>>, <<FA, Boom>> }
+             <<SDef("c", "", <<SDef("a", "n", <<GN>>)>>)>>, <<Boom>>, <<FA, Boom>>,
+             <<Child0("n"), Child("m")>>, <<Child0(""), Child("n")>>, <<Child0("n")>>, <<FC, Child0("")>>, <<FC, Child("n")>>,
+             <<SDef("c", "n", <<Child0("")>>), SDef("c", "m", <<SDef("a", "", <<FA>>)>>)>> }
 TopB == { SDef(t, nm, b) : t \in {"a", "b"}, nm \in {"", "n"}, b \in BBodies } \cup { Boom, SPrint(L1) }
 
 \* ---- bind family (C04)
 BDef == { SDef(t, nm, <<SExpr(Asg("f", L1))>>) : t \in {"a", "b"}, nm \in {"", "n"} }
 BBind == { SBind(t, sel, tgt) : t \in {"a"}, sel \in {"none", "one", "first", "last", "all", "bogus"}, tgt \in {"struct", "slice", "bogus"} }
 BItem == BDef \cup BBind
+\* bindmany: many blocks of the bound type (distinct names, distinct field values) around one or two valid binds
+MDef(i) == SDef(IF i = 4 THEN "b" ELSE "a", CASE i = 1 -> "n" [] i = 2 -> "m" [] i = 3 -> "x" [] i = 4 -> "y" [] OTHER -> "z", <<SExpr(Asg("f", Lit(IntV(i))))>>)
+MBind == { SBind("a", sel, tgt) : sel \in {"none", "one", "first", "last", "all"}, tgt \in {"struct", "slice"} }
 
+RECURSIVE CountKind(_, _)
+CountKind(ss, k) == IF ss = <<>> THEN 0 ELSE (IF Head(ss)[1] = k THEN 1 ELSE 0) + (IF Head(ss)[1] = "def" THEN CountKind(Head(ss)[4], k) ELSE 0) + CountKind(Tail(ss), k)
 VARIABLES prog, body, phase, last
 vars == <<prog, body, phase, last>>
 Init == prog = <<>> /\ body = <<>> /\ phase = 0 /\ last = None
@@ -58,22 +67,25 @@ ScLast == /\ Scope = "scope" /\ phase = 90
 SeqItem(S) == /\ phase < MaxItems /\ \E i \in S : prog' = Append(prog, i) /\ phase' = phase + 1 /\ UNCHANGED <<body, last>>
 BlItem == Scope = "blocks" /\ SeqItem(TopB)
 BiItem == Scope = "bind" /\ SeqItem(BItem)
-Next == ScFirst \/ ScItem \/ ScBodyDone \/ ScLast \/ BlItem \/ BiItem
+\* the i-th definition is MDef(number of definitions so far + 1): names never repeat, so every block is identifiable
+BmItem == /\ Scope = "bindmany" /\ phase < MaxItems
+          /\ \/ prog' = Append(prog, MDef(CountKind(prog, "def") + 1))
+             \/ CountKind(prog, "bind") < 2 /\ \E b \in MBind : prog' = Append(prog, b)
+          /\ phase' = phase + 1 /\ UNCHANGED <<body, last>>
+Next == ScFirst \/ ScItem \/ ScBodyDone \/ ScLast \/ BlItem \/ BiItem \/ BmItem
 Spec == Init /\ [][Next]_vars
 
 RECURSIVE BlkJ(_)
 EntJ(e) == IF e.kind = "val" THEN [k |-> e.k, kind |-> "val", t |-> e.v.t, n |-> e.v.n, d |-> e.v.d, s |-> e.v.s, b |-> <<>>]
            ELSE [k |-> e.k, kind |-> "blk", t |-> "", n |-> 0, d |-> 1, s |-> <<>>, b |-> <<BlkJ(e.b)>>]
 BlkJ(b) == [type |-> b.type, name |-> b.name, ents |-> [i \in 1..Len(b.ents) |-> EntJ(b.ents[i])]]
-RECURSIVE CountKind(_, _)
-CountKind(ss, k) == IF ss = <<>> THEN 0 ELSE (IF Head(ss)[1] = k THEN 1 ELSE 0) + (IF Head(ss)[1] = "def" THEN CountKind(Head(ss)[4], k) ELSE 0) + CountKind(Tail(ss), k)
 NonTrivial == CASE Scope = "scope" -> Len(body) >= 2
                 [] Scope = "blocks" -> CountKind(prog, "def") >= 2
-                [] Scope = "bind" -> CountKind(prog, "bind") >= 1 /\ CountKind(prog, "def") >= 1
+                [] Scope \in {"bind", "bindmany"} -> CountKind(prog, "bind") >= 1 /\ CountKind(prog, "def") >= 1
 Case == LET m == Meaning(prog) IN
         [ fam |-> "prog", src |-> RenSeq(prog), class |-> m.class, out |-> m.out, err |-> m.err, warn |-> m.warn,
           result |-> [i \in 1..Len(m.result) |-> BlkJ(m.result[i])],
           bkind |-> m.binding.kind, bblocks |-> [i \in 1..Len(m.binding.blocks) |-> BlkJ(m.binding.blocks[i])], nt |-> NonTrivial ]
-Complete == (Scope = "scope" /\ phase = 100) \/ (Scope \in {"blocks", "bind"} /\ phase >= 1)
+Complete == (Scope = "scope" /\ phase = 100) \/ (Scope \in {"blocks", "bind", "bindmany"} /\ phase >= 1)
 Emit == Complete => PrintT(<<"CASE", ToJson(Case)>>)
 ====
